@@ -133,7 +133,11 @@ impl FieldElement for BaseElement {
     fn double(self) -> Self {
         let ret = (self.0 as u128) << 1;
         let (result, over) = (ret as u64, (ret >> 64) as u64);
-        Self(result.wrapping_sub(M * over))
+        let result = result.wrapping_sub(M * over);
+        // the subtraction above only handles overflow past 2^64; bring values in [M, 2^64) back
+        // into the canonical range as well
+        let (reduced, borrow) = result.overflowing_sub(M);
+        Self(reduced.wrapping_add(M & 0u64.wrapping_sub(borrow as u64)))
     }
 
     #[inline]
